@@ -260,7 +260,7 @@ def task_glue(I, prop, v):
                                         pos += 1
                             else:
                                 I.oblige(P + '._encode.no_header_without_structured_append', hdr.length == 0)
-                        I.replay_spec = None
+                        I.replay_spec = dict(fn='replay_glue', version=v)
                         I.explore(thunk, post)
 
 
